@@ -35,6 +35,9 @@ def frame_A(seed):
             "n": pd.Series(n, dtype=object),
             "other": pd.Series(list(range(100, 100 + N))),
             "txt": pd.Series([f"t{i}" for i in range(N)], dtype=object),
+            # declared as a qualitative feature, dropped by every fit (each value is rarer than min_freq): from then on a
+            # non-feature column, missing values included
+            "ident": pd.Series([f"u{i}" if i not in (2, 7) else np.nan for i in range(N)], dtype=object),
         }
     )
     return X
@@ -60,14 +63,14 @@ def make(cls, cfg):
 
     vo = {"o": ["lo", "mid", "hi"]}
     if cls.endswith("Carver"):
-        kw = dict(min_freq=0.2, quantitative_features=["q"], qualitative_features=["c", "n"], ordinal_features=["o"], values_orders=vo, max_n_mod=3, copy=True, dropna=cfg["dropna"], output_dtype=cfg["output_dtype"])
+        kw = dict(min_freq=0.2, quantitative_features=["q"], qualitative_features=["c", "n", "ident"], ordinal_features=["o"], values_orders=vo, max_n_mod=3, copy=True, dropna=cfg["dropna"], output_dtype=cfg["output_dtype"])
         if cls != "ContinuousCarver":
             kw["sort_by"] = "cramerv"
         return {"BinaryCarver": BinaryCarver, "ContinuousCarver": ContinuousCarver, "MulticlassCarver": MulticlassCarver}[cls](**kw)
     if cls == "Discretizer":
-        return Discretizer(quantitative_features=["q"], qualitative_features=["c", "n"], min_freq=0.2, ordinal_features=["o"], values_orders=vo, copy=True)
+        return Discretizer(quantitative_features=["q"], qualitative_features=["c", "n", "ident"], min_freq=0.2, ordinal_features=["o"], values_orders=vo, copy=True)
     if cls == "QualitativeDiscretizer":
-        return QualitativeDiscretizer(qualitative_features=["c", "n"], min_freq=0.2, ordinal_features=["o"], values_orders=vo, copy=True)
+        return QualitativeDiscretizer(qualitative_features=["c", "n", "ident"], min_freq=0.2, ordinal_features=["o"], values_orders=vo, copy=True)
     return QuantitativeDiscretizer(quantitative_features=["q"], min_freq=0.2, copy=True)
 
 
@@ -292,7 +295,12 @@ def run_case(case):
     feats = list(obj.features)
     if len(feats) < 1:
         raise RuntimeError(f"harness: {cls} keeps no feature on the base frame")
+    fitted_state = state_of(obj)
     full = obj.transform(A)
+    if state_of(obj) != fitted_state:
+        d0, d1 = pickle.loads(fitted_state), pickle.loads(state_of(obj))
+        changed = sorted(k for k in set(d0) | set(d1) if pickle.dumps(d0.get(k)) != pickle.dumps(d1.get(k)))
+        viol.append({"kind": "state-changed-by-first-transform", "what": f"{cls}: the first transform after fit altered the fitted state (attributes {changed})"})
     if not frame_equal(A, A0):
         viol.append({"kind": "transform-modifies-input", "what": f"{cls}.transform(copy=True) modified the caller's X"})
     full_rows = out_rows(full, feats)
